@@ -30,6 +30,8 @@ class base(GenericEquality, restriction.base):
 
     _evaluate_collapsible = False
     _evaluate_wipe_empty = True
+    # a group holding a single member is interchangeable with that member
+    _single_member_collapsible = True
 
     @cached_hash
     def __hash__(self):
@@ -190,7 +192,8 @@ class base(GenericEquality, restriction.base):
         if not self._evaluate_wipe_empty or l:
             if force_collapse or (
                 (issubclass(parent_cls, self.__class__) and self._evaluate_collapsible)
-                or len(l) <= 1
+                or not l
+                or (len(l) == 1 and self._single_member_collapsible)
             ):
                 parent_seq.extend(l)
             else:
@@ -651,6 +654,8 @@ class AtMostOneOfRestriction(base):
 
     _evaluate_collapsable = True
     _evaluate_wipe_empty = False
+    # at-most-one-of a single member always holds; it is not that member
+    _single_member_collapsible = False
 
     def match(self, vals):
         armed = False
